@@ -152,7 +152,7 @@ class Gen:
 
     def dt(self):
         """dtype / container of the arrays the user hands over (see adapters._as)."""
-        return self.rng.choice((False, False, False, False, True, True, "be", "be64", "ma", "strided", "fortran"))
+        return self.rng.choice((False, False, False, False, True, True, "be", "be64", "ma", "strided", "fortran", "list"))
 
     def emit(self, **op):
         op["clock"] = clock_step(self.rng)
@@ -170,7 +170,12 @@ class Gen:
         huge_p = self.p.get("huge", 0.004 if self.tier == "thorough" else 0.002)
         if rng.random() < huge_p:
             # a block of a few hundred KiB: size thresholds (buffer sizes, 64 KiB, chunked copies)
-            hk = rng.choice([k for k in ("emg", "emg", "data3d") if k in pool] or [None])
+            hk = rng.choice([k for k in ("emg", "emg", "data3d", "fpdata", "events") if k in pool] or [None])
+            if hk == "events":
+                # one sequence with more time stamps than a 16-bit count holds
+                C = gen.block(rng, "events", min_items=1)
+                C["events"][rng.randrange(len(C["events"]))].update(kind=1, values=gen.f32s(rng, rng.choice((65536, 65537, 70001)), "ordinary"))
+                return C
             if hk:
                 n = rng.choice((rng.randint(16384, 70000), rng.randint(65537, 140000)))
                 m = "1" * n if rng.random() < 0.5 else "1" * (n // 3) + "0" * 7 + "1" * (n - n // 3 - 7)
@@ -218,7 +223,7 @@ class Gen:
                 from .refcodec import OPAQUE_CODES
                 opaque_left = [c for c in OPAQUE_CODES if c not in used]
                 if opaque_left and rng.random() < (self.p["opaque"] * 0.5 if k <= 5 else 0.5):
-                    o = gen.opaque(rng, exclude=used)
+                    o = gen.opaque(rng, exclude=used, known_ok=True)
                     s = {"code": o["code"], "fmt": o["fmt"], "bytes": o["bytes"]}
                     code = o["code"]
                 else:
@@ -297,12 +302,13 @@ class Gen:
                 C = self.block(only=dec)
             else:
                 C = self.block(exclude=set(pres))
-            self.emit(op="replace", f=f, C=C, comment=gen.comment(rng), f64=self.dt(), stamp=rng.random() < 0.8)
+            self.emit(op="replace", f=f, C=C, comment=gen.comment(rng), f64=self.dt(), stamp=rng.random() < 0.8,
+                      subclass=rng.random() < 0.1)
         elif kind == "set":
             kinds = [k for k in ("data3d", "emg", "events", "ft", "fpdata") if k in self.p["kinds"]]
             C = self.block(kinds=kinds)
             code = gen.code_of(C)
-            self.emit(op="set", f=f, C=C, f64=self.dt(), stamp=rng.random() < 0.8)
+            self.emit(op="set", f=f, C=C, f64=self.dt(), stamp=rng.random() < 0.8, subclass=rng.random() < 0.15)
             if code not in pres and free > 0:
                 pres[code] = True
         elif kind == "reput":
@@ -360,7 +366,7 @@ class Gen:
             bases = [self.block(exclude=set(self.present[f]), min_items=2)]
             if pres and rng.random() < 0.5:
                 bases.append(self.block(only=pres, min_items=2))
-            causes = rng.sample(["label_long", "label_enc", "label_nul", "comment_long", "comment_enc", "comment_nul", "format", "wrong_obj",
+            causes = rng.sample(["date_range", "label_long", "label_enc", "label_nul", "comment_long", "comment_enc", "comment_nul", "format", "wrong_obj",
                                  "dup", "full", "replace_absent", "remove_absent"], 3)
             self.emit(op="reject_all", f=f, bases=bases, only=causes)
         elif k == "decode_twice":
@@ -381,7 +387,7 @@ class Gen:
         rng = self.rng
         if rng.random() < 0.3:
             return None
-        pool = ["blocks", "len", "repr", "nBytes", "eq", "has_data3D", "has_force_and_torque", "has_events",
+        pool = ["blocks", "len", "repr", "nBytes", "eq", "iter", "has_data3D", "has_force_and_torque", "has_events",
                 "has_emg", "has_force_platforms_data", "data3D", "force_and_torque", "force_platforms_data",
                 "events", "emg", "calibrationData", "get", "getitem"]
         return rng.sample(pool, rng.randint(2, 6))
